@@ -56,7 +56,8 @@ def run_impl(daemon, cases, nproc=None):
         groups.setdefault(cfg, []).append((i, ev, name.startswith("pipe")))
     chunks = []
     for cfg, hs in groups.items():
-        size = 6 if cfg[2] >= 0 else max(10, min(60, len(hs) // nproc + 1))
+        # timed histories are wall-clock bound: one or two per daemon so that they sleep concurrently
+        size = (2 if len(hs) <= 4 * nproc else 6) if cfg[2] >= 0 else max(10, min(60, len(hs) // nproc + 1))
         for j in range(0, len(hs), size):
             chunks.append((daemon, cfg, hs[j:j + size]))
     # long (timed) chunks first
